@@ -188,13 +188,13 @@ def store_property(prop, tier, seed, histories, level_note, replay=None, snap=Fa
         return r
 
     if replay is not None:
-        ops = ops_from_js(replay['ops'])
+        ops = rebase_ops(ops_from_js(replay['ops']), path)
         r = handle(ops, 'replay')
         print('replay: oracle=%s diff=%s' % (r['spec'] or r['other'], r['diff']))
     else:
         # corpus first
         for f in sorted(glob.glob(os.path.join(VERIF, 'corpus', 'store', '*.json')) + glob.glob(os.path.join(VERIF, 'corpus', prop, '*.json'))):
-            handle(ops_from_js(json.load(open(f))['ops']), 'corpus:' + os.path.basename(f))
+            handle(rebase_ops(ops_from_js(json.load(open(f))['ops']), path), 'corpus:' + os.path.basename(f))
         for i, ops in enumerate(histories(random.Random(seed * 1000003 + 17), path)):
             handle(ops, 'generated:%d' % i)
             if nviol >= 3 or time.time() > t_budget:
